@@ -71,13 +71,39 @@ fn child_body(engine: &mut Engine, case: &Value, chan: &mut std::fs::File, out_f
     if let Some(p) = case["gc_poison"].as_bool() {
         steel::verif::set_gc_poison(p);
     }
+    let as_module = case["as_module"].as_bool().unwrap_or(false);
+    let mod_dir = format!(
+        "{}/vhmod-{}",
+        std::env::var("VH_MODULE_DIR").unwrap_or_else(|_| "/dev/shm".to_string()),
+        std::process::id()
+    );
+    if as_module {
+        let _ = std::fs::create_dir_all(&mod_dir);
+    }
     for (i, unit) in units.iter().enumerate() {
-        let src = unit.as_str().unwrap_or("").to_string();
+        let mut src = unit.as_str().unwrap_or("").to_string();
+        // a unit may also be {"module": text}: the text is saved to a file and required, i.e. compiled
+        // and run the way the `steel` command runs a script
+        let module_text = if as_module {
+            Some(src.clone())
+        } else {
+            unit.get("module").and_then(|m| m.as_str()).map(|m| m.to_string())
+        };
+        if let Some(text) = module_text {
+            let _ = std::fs::create_dir_all(&mod_dir);
+            let path = format!("{}/u{}.scm", mod_dir, i);
+            let _ = std::fs::write(&path, text);
+            src = format!("(require \"{}\")", path);
+        }
         let start = fd_len(out_fd);
         let res = std::panic::catch_unwind(std::panic::AssertUnwindSafe(|| engine.run(src)));
         let end = fd_len(out_fd);
         let panics = take_panics();
         let mut rec = json!({"u": i, "o0": start, "o1": end});
+        let emits = crate::hostfns::take_emits();
+        if !emits.is_empty() {
+            rec["emits"] = json!(emits);
+        }
         let mut failed = false;
         match res {
             Ok(Ok(vals)) => {
@@ -119,6 +145,7 @@ fn child_body(engine: &mut Engine, case: &Value, chan: &mut std::fs::File, out_f
             break;
         }
     }
+    let _ = std::fs::remove_dir_all(&mod_dir);
     let counters: serde_json::Map<String, Value> = steel::verif::counters()
         .into_iter()
         .filter(|(_, v)| *v != 0)
